@@ -179,6 +179,14 @@ Example F40_repaired :
   exists rest nb, insert_new repaired w40_blocks = Ok ((Imps nb :: sep_block :: rest)%list, nb).
 Proof. eexists. eexists. vm_compute. reflexivity. Qed.
 
+(* F45:  "x = 1; \\\nimport foo\n"  with foo unused: the emptied block leaves the backslash dangling *)
+Definition w45_blocks : list block :=
+  [Other [mkStmt KCode (dec "x = 1; $5c;$a;")] None; Imps (mkIB 1 2 true 3 true [])].
+Lemma F45_refuted :
+  pp (fun _ => []) unchanged w45_blocks = Ok (dec "x = 1; $5c;$a;") /\
+  pp (fun _ => []) repaired w45_blocks = Ok (dec "x = 1; $5c;$a;$a;").
+Proof. split; vm_compute; reflexivity. Qed.
+
 (* non-vacuity of no_internal_error: its hypotheses hold of the F35 input *)
 Example no_internal_error_nonvacuous :
   inv wnv_blocks /\ ok_seq (iblocks wnv_blocks) /\
